@@ -6,6 +6,9 @@
             match v {
                 Self::CVendFunctionsEnhancedSystemInformationCompletion(x) => b.len() >= 2 && b[0] == 6 && b[1] == 15 && zvt_builder::tid_of(x) == 10 /* feig::packets::CVendFunctionsEnhancedSystemInformationCompletion */ && zvt_builder::zd_ok_of(b, x),
                 Self::Abort(x) => b.len() >= 2 && b[0] == 6 && b[1] == 30 && zvt_builder::tid_of(x) == 4 /* packets::Abort */ && zvt_builder::zd_ok_of(b, x),
+                // a variant the frozen reply table does not know can never be a correct result
+                #[allow(unreachable_patterns)]
+                _ => false,
             }
         }
         /// the command's reply set
@@ -22,6 +25,9 @@
                 Self::CompletionData(x) => b.len() >= 2 && b[0] == 6 && b[1] == 15 && zvt_builder::tid_of(x) == 3 /* packets::CompletionData */ && zvt_builder::zd_ok_of(b, x),
                 Self::RequestForData(x) => b.len() >= 2 && b[0] == 4 && b[1] == 12 && zvt_builder::tid_of(x) == 9 /* feig::packets::RequestForData */ && zvt_builder::zd_ok_of(b, x),
                 Self::Abort(x) => b.len() >= 2 && b[0] == 6 && b[1] == 30 && zvt_builder::tid_of(x) == 4 /* packets::Abort */ && zvt_builder::zd_ok_of(b, x),
+                // a variant the frozen reply table does not know can never be a correct result
+                #[allow(unreachable_patterns)]
+                _ => false,
             }
         }
         /// the command's reply set
@@ -36,6 +42,9 @@
         open spec fn parse_ok(b: Seq<u8>, v: Self) -> bool {
             match v {
                 Self::CompletionData(x) => b.len() >= 2 && b[0] == 6 && b[1] == 15 && zvt_builder::tid_of(x) == 3 /* packets::CompletionData */ && zvt_builder::zd_ok_of(b, x),
+                // a variant the frozen reply table does not know can never be a correct result
+                #[allow(unreachable_patterns)]
+                _ => false,
             }
         }
         /// the command's reply set
@@ -51,6 +60,9 @@
             match v {
                 Self::CompletionData(x) => b.len() >= 2 && b[0] == 6 && b[1] == 15 && zvt_builder::tid_of(x) == 3 /* packets::CompletionData */ && zvt_builder::zd_ok_of(b, x),
                 Self::Abort(x) => b.len() >= 2 && b[0] == 6 && b[1] == 30 && zvt_builder::tid_of(x) == 4 /* packets::Abort */ && zvt_builder::zd_ok_of(b, x),
+                // a variant the frozen reply table does not know can never be a correct result
+                #[allow(unreachable_patterns)]
+                _ => false,
             }
         }
         /// the command's reply set
